@@ -55,6 +55,18 @@ CLAIMED = {
         "Trusted: the bundled model files as data; own linspace recurrence for node positions.",
         "DESIGN.md section 5 C14",
     ),
+    "C15": (
+        "property-based testing: generated CSV/gzip files loaded through the real loaders and compared accessor by accessor with a reference adjacency list built from the same rows",
+        "Edge/vertex files are generated with reordered and extra columns, with/without trailing newline, gzip or plain per file, explicit or scanned counts and 0-7 digit coordinates; every Graph accessor, both adjacency views (as duplicate-free sets), vertex coordinates, gzip-vs-plain equality and row alignment of speed/heading/class tables are checked.",
+        "Trusted: the reference adjacency list. Preconditions from the Graph docs (ids = row index, end points < n_vertices) are respected by the generator; gzip files carry the .gz extension.",
+        "DESIGN.md section 5 C15",
+    ),
+    "C16": (
+        "property-based testing: exhaustive-scan oracle under the plugin's own f32 measure, great-circle tolerance band, query-preservation check",
+        "Vertex and edge matchers are built from generated files (lattice-snapped candidates for exact ties, road-class table, vehicle-restriction file) and queried at, near, between, around, far from and outside the candidates, with tolerances from 1 m to 500 km in all five units.",
+        "Trusted: geo's centroid (a library, not code under test), the f64 haversine reference. Ties may be resolved either way; a +-1 % +- 5 m band around the tolerance accepts either outcome.",
+        "DESIGN.md section 5 C16",
+    ),
     "C17": (
         "exhaustive enumeration of small iterator shapes + property-based testing against a nested-loop reference product",
         "All 340 mixed-radix shapes up to 4 axes x 4 options are enumerated for the iterator; generated query objects with grid sections (scalar/object/mixed choices, any key order, non-array members, overriding axis names) are expanded by the plugin directly and through apply_input_plugins and compared as key-order-insensitive multisets with a nested-loop reference.",
@@ -84,6 +96,12 @@ CLAIMED = {
         "Every directed graph with self loops on 1-4 vertices is enumerated (thorough: plus all loop-free digraphs on 5 vertices); random multigraphs, rings of rings and long chains are generated. The returned components must be a partition into exactly the mutual-reachability classes; the largest component must have maximal size.",
         "Trusted: the harness's iterative Tarjan, itself cross-checked by n BFS runs for n <= 64.",
         "DESIGN.md section 5 C18",
+    ),
+    "C20": (
+        "property-based testing: one search result rendered in all five formats, decoded by own WKT/WKB/GeoJSON readers and compared with the edge sequence and a provenance-encoding geometry table",
+        "The traversal plugin is built from a generated geometry file (2-6 points per edge, coordinates encoding edge id and point index, optionally truncated) for each route and tree format and run on the same search result (several routes for single-via); edge ids, per-edge records, feature ids/properties/geometries, concatenated WKT/WKB geometry, one tree entry per branch, missing geometry => error, identifiers and summary counts are checked.",
+        "Trusted: own minimal WKT and little-endian WKB readers. Coordinates are compared exactly.",
+        "DESIGN.md section 5 C20",
     ),
 }
 
